@@ -126,8 +126,9 @@ class Result:
         ev = dict(property_id=self.pid, tier=self.tier, seed=self.seed, level=level, coverage=cov,
                   assumptions=self.assumptions, wall_s=round(time.time() - self.t0, 2),
                   violations=len(self.violations))
-        os.makedirs(os.path.join(OUT_DIR, "evidence"), exist_ok=True)
-        with open(os.path.join(OUT_DIR, "evidence", self.pid + ".json"), "w") as f:
+        sub = "growth" if self.pid.startswith("G") else "evidence"      # G.. = specification growth beyond the listed properties
+        os.makedirs(os.path.join(OUT_DIR, sub), exist_ok=True)
+        with open(os.path.join(OUT_DIR, sub, self.pid + ".json"), "w") as f:
             json.dump(ev, f, indent=1, default=str)
         return 1 if self.violations else 0
 
